@@ -14,6 +14,8 @@ MUTANTS = [
      'new': 'vertical_map = np.linspace(line_heights[1], -line_heights[0], target_height).reshape(-1, 1)'},
     {'name': 'fast path forgets the y shift', 'file': F, 'old': '            y_coords_shifted = coords[:, :, 1] - y_min', 'new': '            y_coords_shifted = coords[:, :, 1]'},
     {'name': 'original-defect: mirrored normal on curved baselines', 'file': F, 'old': '        norm_x = d_y / norm_scales', 'new': '        norm_x = -d_y / norm_scales'},
+    {'name': 'original-defect: the arc-length table is never advanced (columns uniform in x, not along the curve)', 'file': F,
+     'old': 'while forward_mapping[forward_position] < sample_positions[i]:', 'new': 'while forward_mapping[forward_position] > sample_positions[i]:'},
     {'name': 'width ignores the scale', 'file': F, 'old': 'horizontal_sample_count = int(mapping_x_to_line_pos[-1] * scale)', 'new': 'horizontal_sample_count = int(mapping_x_to_line_pos[-1])'},
     {'name': 'fallback crop with the wrong height', 'file': F, 'old': 'line_crop = np.zeros([self.line_height, 32, img.shape[2]], dtype=np.uint8)', 'new': 'line_crop = np.zeros([32, 32, img.shape[2]], dtype=np.uint8)'},
 ]
@@ -34,6 +36,10 @@ def baselines(thorough):
                         x += step
                         y += step * (sl + (0.06 if (k % 2 == 0 and npts > 2) else (-0.06 if npts > 2 else 0.0)))
                     out.append([(int(round(a)), int(round(b))) for a, b in pts])
+    # clearly curved baselines (an arc and a gentle S, in two places): the columns must be uniform along the CURVE
+    for dx, dy in ((0, 0), (35, 60)):
+        out.append([(10 + dx, 100 + dy), (60 + dx, 70 + dy), (110 + dx, 60 + dy), (160 + dx, 70 + dy), (210 + dx, 100 + dy)])
+        out.append([(10 + dx, 100 + dy), (60 + dx, 85 + dy), (110 + dx, 100 + dy), (160 + dx, 115 + dy), (210 + dx, 100 + dy)])
     return out
 
 
@@ -81,7 +87,7 @@ def check_geometry(np, ce, pts, heights, poly, line_height, scale):
     if np.hypot(*(base[0] - b[0])) > 1.5 or np.hypot(*(base[-1] - b[-1])) > 2.5:
         bad.append(('columns-from-first-to-last-point', 'baseline row runs %r..%r, baseline %r..%r' % (base[0].round(1).tolist(), base[-1].round(1).tolist(), b[0].tolist(), b[-1].tolist())))
     d = np.hypot(*(base[1:] - base[:-1]).T)
-    if d.max() - d.min() > 0.2 * d.mean() + 0.05:
+    if d.max() - d.min() > 0.05 * d.mean() + 0.03:
         bad.append(('columns-uniform', 'column spacing along the baseline %.3f..%.3f' % (d.min(), d.max())))
     # first row is above the baseline (smaller y for a left-to-right line), rows perpendicular to it
     direction = base[2:] - base[:-2]
@@ -196,6 +202,11 @@ def plans(thorough):
         if abs(pts[-1][1] - pts[0][1]) > 1.75 * abs(pts[-1][0] - pts[0][0]):
             continue                       # steeper than 60 degrees: outside the property's slope range
         for poly in (0, 1, 2):
+            if len(pts) == 5 and pts[0][1] == pts[-1][1] and pts[0] in ((10, 100), (45, 160)):
+                # the clearly curved baselines: a degree-1 / degree-2 least-squares fit is not an interpolation of them, so only the
+                # modes that pass through the points are held to "from the first to the last point" (cubic; parabola for the arc)
+                if poly == 1 or (poly == 2 and pts[1][1] < pts[2][1]):
+                    continue
             for heights, lh, sc in (((20, 10), 32, 1.0), ((8, 3), 16, 0.8), ((20, 10), 64, 1.5)) if thorough else (((20, 10), 32, 1.0), ((8, 3), 16, 1.5)):
                 out.append((pts, heights, poly, lh, sc, lh == 32))
     return out
@@ -205,25 +216,23 @@ def run(ctx):
     thorough = ctx.tier == 'thorough'
     ctx.level = 'other'
     ctx.explanation = (
-        'Partial. DECIDED on the source: the interpolant used for the normals is probed 0.1 px past a sample; either it extrapolates, or the '
-        'probe must be shown to stay inside the node range (obligation over the rotated length; refuted for fractional parts >= 0.9 when the '
-        'interpolant does not extrapolate). BOUNDED numeric (tolerance 0.75 px): on a grid of integer baselines (2-5 points, steps, slopes up to '
-        '+-1.5 within 60 degrees, mild curvature, in and partly outside the page) x interpolation orders 0/1/2 x heights / line heights / scales: map '
-        'height = configured height, width = length x scale, columns uniform from first to last point, rows linear from ascender to descender along '
-        'the normal, fast path == general path, shift equivariance, no blank fallback; degenerate lines (vertical, single pixel, zero heights) fall '
-        'back to a blank image of the configured height in crop() and LineCropper, never an error.')
+        'Hybrid. PROVED for all arc-length tables and sample lists (pyvc, contracts/cropping.py): EngineLineCropper.reverse_line_mapping returns, for '
+        'every sample, the piecewise-linear inverse of the (strictly increasing) arc-length table at that arc length — the x position of a crop '
+        'column is the point of the baseline at that distance along the curve, so uniformly spaced samples (np.linspace in get_crop_inputs) give '
+        'columns that advance uniformly along the baseline; no division by zero, no index outside the table, the inner search terminates.  '
+        'BOUNDED numeric (tolerance 0.75 px; column spacing within 5%): on a grid of integer baselines (2-5 points, steps, slopes up to '
+        '+-1.5 within 60 degrees, mild curvature, an arc and an S-shaped baseline, in and partly outside the page) x interpolation orders 0/1/2 x '
+        'heights / line heights / scales: map height = configured height, width = length x scale, columns uniform from first to last point, rows '
+        'linear from ascender to descender along the normal, fast path == general path, shift equivariance, no blank fallback; degenerate lines '
+        '(vertical, single pixel, zero heights) fall back to a blank image of the configured height in crop() and LineCropper, never an error.  '
+        'Trigonometry, scipy interpolation and cv2.remap are not reasoned about.')
     core.setup_repo_path()
-    try:
-        from contracts import cropping
-        from pyvc import solve
-        reps = cropping.reports(core.repo_root())
-        for r in reps:
-            for vc in r.vcs:
-                vc.func = r.name
-        solve.discharge([vc for r in reps for vc in r.vcs], {r.name: r.axioms for r in reps})
-        ctx.add_proof_reports(reps, clause='interpolant probe positions within range (callee precondition of interp1d)')
-    except ImportError:
-        ctx.notes.append('contracts/cropping.py not present: bounded only')
+    from pyvc import run as vrun
+    from contracts import cropping
+    reps = vrun.verify(cropping.KEYS, cropping.CONTRACTS, root=core.repo_root(), both=thorough)
+    ctx.add_proof_reports(reps, clause='column x positions = arc-length inverse at the sampled arc lengths (uniform along the baseline)')
+    ctx.trusted += ['A4: the numba object-mode jit of reverse_line_mapping behaves as the Python source',
+                    'callers (get_crop_inputs) satisfy the precondition: strictly increasing arc-length table, non-decreasing samples within it (not proved: numpy/scipy geometry)']
     import numpy as np
     from pero_ocr.core import crop_engine as ce, layout
     from pero_ocr.document_ocr import page_parser as pp
